@@ -167,4 +167,104 @@ theorem convert_denotes_oneof (ext : DenoteExt) (enums : List (List Str)) (e : N
 
 end
 
+/-! ### C03, type part: integers -/
+
+theorem isDigitC_bounds (c : Char) (h : isDigitC c = true) : 48 ≤ c.toNat ∧ c.toNat ≤ 57 := by
+  simp only [isDigitC, decide_eq_true_eq] at h
+  have h1 : (48 : Nat) ≤ c.toNat := h.1
+  have h2 : c.toNat ≤ 57 := h.2
+  exact ⟨h1, h2⟩
+
+theorem digitVal_of_isDigitC (c : Char) (h : isDigitC c = true) : digitVal c = some (digitOf c) := by
+  simp only [isDigitC, decide_eq_true_eq] at h
+  simp [digitVal, h, digitOf]
+
+theorem intSpace_of_isDigitC (c : Char) (h : isDigitC c = true) : intSpace c = false := by
+  have hb := isDigitC_bounds c h
+  simp only [intSpace, isSpace, pySpaceCodepoints, Bool.and_eq_false_iff]
+  left
+  simp only [List.contains_eq_mem, List.mem_cons, List.not_mem_nil, or_false, decide_eq_false_iff_not]
+  omega
+
+theorem intBody_positional (b : Str) (hb : b.all isDigitC = true) (pd : Bool) (acc : Nat) (hne : b ≠ [] ∨ pd = true) :
+    intBody pd acc b = some (acc * 10 ^ b.length + positional b) := by
+  induction b generalizing pd acc with
+  | nil =>
+    rcases hne with h | h
+    · exact absurd rfl h
+    · subst h; simp [intBody, positional]
+  | cons c cs ih =>
+    simp only [List.all_cons, Bool.and_eq_true] at hb
+    simp only [intBody, digitVal_of_isDigitC c hb.1]
+    rw [ih hb.2 true _ (Or.inr rfl)]
+    simp only [positional, List.length_cons, Nat.pow_succ]
+    congr 1
+    grind
+
+/-- C03, type part, integers: on the lexical space `[+-]?[0-9]+`, `int(text)` is the positional value -/
+theorem pyIntParse_of_lex (s : Str) (h : lexInteger s = true) : pyIntParse s = denoteInteger s := by
+  have hb : (dropSign s).all isDigitC = true ∧ dropSign s ≠ [] := by
+    simp only [lexInteger, Bool.and_eq_true, Bool.not_eq_true', List.isEmpty_eq_false_iff] at h
+    exact ⟨h.2, h.1⟩
+  have hdig : ∀ (b : Str), b.all isDigitC = true → stripBy intSpace b = b := fun b hall =>
+    stripBy_id _ _ (fun c hc => intSpace_of_isDigitC c (List.all_eq_true.mp hall c hc))
+  have hsgn : ∀ (x : Char) (b : Str), intSpace x = false → b.all isDigitC = true →
+      stripBy intSpace (x :: b) = x :: b := fun x b hx hall =>
+    stripBy_id _ _ (fun c hc => by
+      rcases List.mem_cons.mp hc with rfl | hc
+      · exact hx
+      · exact intSpace_of_isDigitC c (List.all_eq_true.mp hall c hc))
+  unfold denoteInteger
+  rw [h]
+  simp only [if_true]
+  unfold pyIntParse
+  match s, hb with
+  | '-' :: b, hb =>
+    simp only [dropSign] at hb
+    simp [hsgn '-' b (by decide) hb.1, takeSign, intBody_positional b hb.1 false 0 (Or.inl hb.2), dropSign, isNegative]
+  | '+' :: b, hb =>
+    simp only [dropSign] at hb
+    simp [hsgn '+' b (by decide) hb.1, takeSign, intBody_positional b hb.1 false 0 (Or.inl hb.2), dropSign, isNegative]
+  | [], hb => simp [dropSign] at hb
+  | c :: b, hb =>
+    by_cases h1 : c = '-'
+    · subst h1
+      simp only [dropSign] at hb
+      simp [hsgn '-' b (by decide) hb.1, takeSign, intBody_positional b hb.1 false 0 (Or.inl hb.2), dropSign, isNegative]
+    · by_cases h2 : c = '+'
+      · subst h2
+        simp only [dropSign] at hb
+        simp [hsgn '+' b (by decide) hb.1, takeSign, intBody_positional b hb.1 false 0 (Or.inl hb.2), dropSign, isNegative]
+      · have hd : dropSign (c :: b) = c :: b := by
+          unfold dropSign; split <;> simp_all
+        rw [hd] at hb
+        have hneg : isNegative (c :: b) = false := by
+          unfold isNegative; split <;> simp_all
+        simp [hdig (c :: b) hb.1, takeSign_other c b h1 h2, intBody_positional (c :: b) hb.1 false 0 (Or.inl hb.2), hd, hneg]
+
+
+/-- C03, type part, integers (any declared length): on the lexical space `[+-]?[0-9]+` the converter returns
+    the positional value when it has at most `length` digits and refuses otherwise -/
+theorem convert_denotes_integer (ext : DenoteExt) (enums : List (List Str)) (l : Option Nat) (r : Bool) (s : Str)
+    (h : lexInteger s = true) :
+    Ofx.Types.convert enums (.integer l) r (.str s) = denoteResult (denote ext enums (.integer l) s) := by
+  have hne : s ≠ [] := by
+    intro e; subst e; simp [lexInteger, dropSign] at h
+  obtain ⟨c, cs, rfl⟩ := List.exists_cons_of_ne_nil hne
+  have hd : ∃ i, denoteInteger (c :: cs) = some i := by
+    unfold denoteInteger; rw [h]; exact ⟨_, rfl⟩
+  obtain ⟨i, hi⟩ := hd
+  cases l with
+  | none =>
+    simp [Ofx.Types.convert, Ofx.Types.integerConvert, pyIntParse_of_lex _ h, hi, denote, denoteResult,
+      Ofx.Types.intEnforceLength, bind, Except.bind, pure, Except.pure]
+  | some n =>
+    by_cases hf : i.natAbs < 10 ^ n
+    · have : ¬ (i.natAbs ≥ 10 ^ n) := by omega
+      simp [Ofx.Types.convert, Ofx.Types.integerConvert, pyIntParse_of_lex _ h, hi, denote, denoteResult,
+        Ofx.Types.intEnforceLength, bind, Except.bind, pure, Except.pure, hf, this]
+    · have : i.natAbs ≥ 10 ^ n := by omega
+      simp [Ofx.Types.convert, Ofx.Types.integerConvert, pyIntParse_of_lex _ h, hi, denote, denoteResult,
+        Ofx.Types.intEnforceLength, bind, Except.bind, pure, Except.pure, hf, this]
+
 end Ofx
